@@ -83,20 +83,20 @@ func (fp *sFieldPost) termPost(t string) *sTermPost {
 // ---- generator
 
 type gField struct {
-	name    string
-	terms   []string
-	tv      bool // locations possible
-	dv      bool
-	store   bool // stored value possible
-	maxLocs int
-	multi   bool // the field may occur twice in a document
-	maxOcc  int  // (with multi) up to this many occurrences (default 2)
-	always  bool // field present in every document (no presence bit)
-	allTerm bool // every term present (no has bit)
-	fixFreq bool // frequency is the constant 1 (no symbolic number)
-	fixLocs bool // every hit has exactly maxLocs locations
-	shape   bool // geo-shape field: its encoded shape is one more doc-value term of the document
-	comp    bool // composite field (delivered through VisitComposite, like bleve's _all)
+	name     string
+	terms    []string
+	tv       bool // locations possible
+	dv       bool
+	store    bool // stored value possible
+	maxLocs  int
+	multi    bool   // the field may occur twice in a document
+	maxOcc   int    // (with multi) up to this many occurrences (default 2)
+	always   bool   // field present in every document (no presence bit)
+	allTerm  bool   // every term present (no has bit)
+	fixFreq  bool   // frequency is the constant 1 (no symbolic number)
+	fixLocs  bool   // every hit has exactly maxLocs locations
+	shape    bool   // geo-shape field: its encoded shape is one more doc-value term of the document
+	comp     bool   // composite field (delivered through VisitComposite, like bleve's _all)
 	locField string // the locations of its hits name this (existing) field instead of the field itself
 }
 
@@ -108,12 +108,12 @@ type gCfg struct {
 	freqZero bool // allow freq == 0
 	maxAP    int  // array positions per location / stored value
 	idBase   string
-	symTyp   bool // stored type byte symbolic (else 't')
-	storeAll bool // every storable occurrence is stored (no symbolic bit)
-	idDV     bool // the _id field is indexed with doc values (symbolic per batch)
-	fixAP    bool // every location / stored value has exactly maxAP array positions
-	allWide  bool // no narrow-number assumption at all (corpus batches pin every number)
-	noFx     bool // freq of hits with locations is exactly the number of locations
+	symTyp   bool  // stored type byte symbolic (else 't')
+	storeAll bool  // every storable occurrence is stored (no symbolic bit)
+	idDV     bool  // the _id field is indexed with doc values (symbolic per batch)
+	fixAP    bool  // every location / stored value has exactly maxAP array positions
+	allWide  bool  // no narrow-number assumption at all (corpus batches pin every number)
+	noFx     bool  // freq of hits with locations is exactly the number of locations
 	valLens  []int // stored value lengths, cycled over (doc+field+occurrence); default 0..3
 }
 
